@@ -236,7 +236,19 @@ void Sim::exec_step(const Step& s, ns_t* next_override) {
             fn = [this, inner = std::move(fn), next](Completion c) {
                 bool aborted = c.ec == boost::asio::error::operation_aborted;
                 inner(std::move(c));
-                if (!aborted && client && running) { w.count("probe.chained_publish"); exec_step(next, nullptr); }
+                if (!aborted && client && running) {
+                    w.count("probe.chained_publish");
+                    exec_step(next, nullptr);
+                    // repeated-acknowledgement quirk, placed: the next publish (which re-uses the identifier that has just
+                    // become free) is queued behind a write the transport has not completed; the broker repeats the final
+                    // acknowledgements of its last few exchanges now, so that it reaches the client while that request is still waiting
+                    if (plan.knobs.broker.dup_ack_p > 0 && !healed) {
+                        if (sim::Conn* cc = current_conn(); cc && cc->write_op && cc->write_op->pending()) {
+                            auto rr = sim::Rng::keyed(w.seed, "placed_dup", {(uint64_t)next.id});
+                            if (rr.chance(0.5)) broker.repeat_recent_final_acks(cc->id);
+                        }
+                    }
+                }
             };
         }
         client->async_publish(s.a, s.s1, s.s2, s.b, s.props, ops[op].slot, std::move(fn));
